@@ -2,6 +2,7 @@ use crate::run::*;
 use serde_json::Value as J;
 
 pub mod c01;
+pub mod c03;
 pub mod c05;
 pub mod c06;
 pub mod c09;
@@ -20,6 +21,7 @@ pub type ReplayFn = fn(&str, &J, &mut Stats) -> Result<Vec<Fail>, String>;
 pub fn lookup(id: &str) -> Option<(RunFn, ReplayFn)> {
     match id {
         "C01" => Some((c01::run, c01::replay)),
+        "C03" => Some((c03::run, c03::replay)),
         "C05" => Some((c05::run, c05::replay)),
         "C06" => Some((c06::run, c06::replay)),
         "C07" => Some((sqlprops::run_c07, sqlprops::replay_c07)),
